@@ -184,6 +184,9 @@ def run(ctx):
         state["range_checked"] = state.get("range_checked", 0) + 1
         if not (min(init + [e]) <= min(el) and max(el) <= max(init + [e])):
             state["range_outside"] = state.get("range_outside", 0) + 1
+        if flat:    # which closed-form comparisons fall in the proved domain of `setElevation_eq_pyramid` (see Props/C20.lean)
+            key = "closed_form_proved_domain" if (abs(e - start) <= 1 or whole) else "closed_form_validated_only"
+            state[key] = state.get(key, 0) + 1
         # O2 + closed form (flat start only)
         if flat:
             bad = smooth(el, s)
@@ -252,6 +255,8 @@ def run(ctx):
         case(s, init, rng.randrange(0, hi + 2), x1, y1, x2, y2, tag="rough")
 
     # ------------------------------------------------------------------ correspondence
+    R.extra["closed_form_cases"] = {"proved_domain (|request-base| <= 1 or whole map)": state.get("closed_form_proved_domain", 0),
+                                    "validated_only (steps of two or more levels)": state.get("closed_form_validated_only", 0)}
     R.extra["range_theorem_on_real_results"] = {"theorem": "Aoe.Props.C20.elevations_stay_in_range",
                                                 "cases": state.get("range_checked", 0), "outside": state.get("range_outside", 0)}
     drv = ctx.driver()
